@@ -6,7 +6,7 @@
 (* changes of the default / maximum limits mid-history.                      *)
 EXTENDS Genesis
 
-CONSTANTS MaxHeight, MaxTx, MaxFail, MaxReg, MaxRec, Presets
+CONSTANTS MaxHeight, MaxTx, MaxFail, MaxReg, MaxRec, Presets, FailingGov
 VARIABLES st, phase, hist, nTx, nFail
 vars == <<st, phase, hist, nTx, nFail>>
 
@@ -52,9 +52,9 @@ TxAlphabet ==
   \cup { FeeTx(<<[t |-> "WReg", owner |-> a, moniker |-> "m", name |-> "n", genesis |-> "g", type |-> "t"],
                   WRec(a, st.wrk.next, 1), WRec(a, st.wrk.next, 1)>>) : a \in {"A2", "A3"} }
   \cup { FeeTx(<<[t |-> "BReg", owner |-> "A3", moniker |-> "m", name |-> "n"], BRec("A3", st.bcn.next), BBuy("A3", st.bcn.next, 1), BRec("A2", st.bcn.next)>>) }
-  \cup { GovTxFor(st, "wrk", Presets[i]) : i \in DOMAIN Presets }
-  \cup { GovTxFor(st, "bcn", Presets[i]) : i \in DOMAIN Presets }
-  \cup { GovTxFailingFor(st, "wrk", Presets[1]) }
+  \cup { GovTxFor(st, "wrk", Presets[i]) : i \in (IF FailingGov THEN {} ELSE DOMAIN Presets) }
+  \cup { GovTxFor(st, "bcn", Presets[i]) : i \in (IF FailingGov THEN {} ELSE DOMAIN Presets) }
+  \cup (IF FailingGov THEN { GovTxFailingFor(st, "wrk", Presets[i]) : i \in DOMAIN Presets } ELSE {})
 
 TotalRecs == SeqSum([i \in DOMAIN st.aux.ever.wrk |-> Len(st.aux.ever.wrk[i])]) + SeqSum([i \in DOMAIN st.aux.ever.bcn |-> Len(st.aux.ever.bcn[i])])
 
